@@ -147,13 +147,7 @@ func (s Summary) hasReport(r Report) bool {
 
 func (s *Summary) SortReports() {
 	for i := range s.reports {
-		slices.SortStableFunc(s.reports[i].Problem.Diagnostics, func(a, b diags.Diagnostic) int {
-			return cmp.Or(
-				cmp.Compare(b.FirstColumn, a.FirstColumn),
-				cmp.Compare(a.LastColumn, b.LastColumn),
-				cmp.Compare(a.Message, b.Message),
-			)
-		})
+		slices.SortStableFunc(s.reports[i].Problem.Diagnostics, cmpDiags)
 	}
 
 	slices.SortStableFunc(s.reports, func(a, b Report) int {
